@@ -10,6 +10,7 @@ def build(chk, ip, runner):
     chk.design_ref = 'DESIGN.md section 5 C10'
     chk.lemmas = list(c10_codec.LEMMAS)
     chk.units = c10_codec.units()
+    chk.stubs = c10_codec.stubs()
 
 
 if __name__ == '__main__':
